@@ -70,6 +70,7 @@ struct ArchiveStreams : Family {
 				ref::ClmMember m;
 				m.name = l.get("name", "a").substr(0, 8);
 				m.data = prngBytes(l.u("cseed"), static_cast<size_t>(l.u("len")));
+				if (l.u("cseed") % 3 == 0) m.tailSeed = l.u("cseed") | 1; // stale bytes after the name's terminator
 				bool clash = false;
 				for (auto& o : cm) if (ref::nameEqualNoCase(o.name, m.name)) clash = true;
 				if (!clash) cm.push_back(m);
